@@ -400,6 +400,53 @@ def _run(ck: Check, probe) -> None:
                 ck.mismatch_total += 1
                 ck.mismatch_kinds["step-machine:malformed:" + name] = 1
                 ck.mismatches.append({"corr": "corr:in-place-signing/open-sequence+file-bytes", "line": f"signsteps <{name}>", "impl": f"{iclass} opens={want_opens}", "model": ans[:200], "tag": name, "meta": {}, "stdout_encoding": "utf-8"})
+    # the operating system refuses the output (a read-only file, an immutable flag, a quota): the run fails when it tries to open / replace the target,
+    # and the target is still there, byte for byte (injected at the audit-hook level, for `open` in a writing mode)
+    for name, doc_ in (("small", {"packages": {"a": {"n": 1}, "b": {"n": 2}}, "packages.conda": {"c.conda": {}}}), ("signed-before", {"packages": {"a": {"n": 1}}, "signatures": {"a": {"old": 1}}})):
+        content = gen.oracle_bytes(doc_)
+        put(fn, content)
+        faults.DENY_WRITE[0] = True
+        try:
+            with impl.quiet_stdout():
+                exc, _, log = faults.run_traced(lambda: impl.signing.sign_all_in_repodata(fn, gen.key(1).seed.hex()), fn, pkg)
+        finally:
+            faults.DENY_WRITE[0] = False
+        ck.evaluations += 1
+        ck.oracle_checks += 1
+        ck.count("output-refused:" + (type(exc).__name__ if exc else "no-error"))
+        after_ = get(fn)
+        put(fn, content)
+        with impl.quiet_stdout():
+            impl.signing.sign_all_in_repodata(fn, gen.key(1).seed.hex())
+        signed_ = get(fn)
+        if (exc is not None and after_ != content) or (exc is None and after_ != signed_):
+            # (a tool that replaces the file instead of opening it is not refused and succeeds: then the file must be the fully signed one)
+            ck.violation("opening the file for writing was refused (read-only file) and the run did not leave the file as it was (or reported success without having signed it)",
+                         {"case": name, "error": repr(exc)[:200], "file_after": after_[:60].decode("latin-1")}, "c18-output-refused-modified")
+    # a document the serializer gives up on (nesting far beyond the interpreter's recursion limit, outside the artifact records): the run fails, the file stays
+    deep = cur = []
+    for _ in range(1300):
+        nxt = []
+        cur.append(nxt)
+        cur = nxt
+    import json as _json
+    try:
+        deep_text = _json.dumps({"info": {"nested": "@@"}, "packages": {"a": {"n": 1}}, "packages.conda": {"b.conda": {}}}).replace('"@@"', "[" * 1300 + "]" * 1300).encode()
+        _json.loads(deep_text)
+    except RecursionError:
+        deep_text = None
+    if deep_text is not None:
+        put(fn, deep_text)
+        with impl.quiet_stdout():
+            exc, _, log = faults.run_traced(lambda: impl.signing.sign_all_in_repodata(fn, gen.key(1).seed.hex()), fn, pkg, trace=False)
+        ck.evaluations += 1
+        ck.oracle_checks += 1
+        ck.count("too-deep-document:" + (type(exc).__name__ if exc else "no-error"))
+        after = get(fn)
+        if exc is not None and after != deep_text:
+            ck.violation("signing a document nested beyond what the serializer can handle failed and left a modified (truncated / partially written) file",
+                         {"error": repr(exc)[:160], "file_len_before": len(deep_text), "file_len_after": len(after), "events": log}, "c18-too-deep-modified")
+    del deep, cur
     # leftovers of earlier (crashed) runs next to the file — temporary / partial / backup siblings holding other, well-formed content — change nothing:
     # a failing call leaves the target as it was, a successful one gives the result it gives without them
     sib_doc = gen.oracle_bytes({"packages": {"evil": {"n": 0}}, "signatures": {"evil": {}}})
